@@ -91,6 +91,30 @@ NUMERIC KERNELS (curve.f90, triangle.f90; Tables/SrcF90Kernels.lean) - additiona
   OPAQUE        `{"opaque": True}`: only the interface of the routine is read (declared limitation, no definition); its
                 callers take it as an explicit function argument `<name>_ext`
 
+PHASE 4 (f90tri; Tables/SrcF90Triangle.lean) - `triangle.f90`, `triangle_intersection.f90`, rest of `curve.f90`
+  `"as"`        `{"as": "tri_subdivide_nodes"}`: the Lean name of a routine whose Fortran name is already taken by a routine of
+                another module; a referenced name is looked up in the module of the referencing routine first
+  BLOCK OUTPUT  a caller that keeps the axis (`jac_nodes(4, n)`, `dimension_ = 2`) of a BLOCK SPLIT output
+                (`new_nodes(2 * dimension_, n)` of jacobian_both): the rows of the first block for every row of the input,
+                followed by the rows of the second block (`List.map (·).1 nodes ++ List.map (·).2 nodes`)
+  `[a, b, c]`   an array constructor of real scalars: the list (`[a, b]`: the point)
+  opaque        an interface-only routine may have local declarations / statements outside the subset (only the dummy
+                arguments are read)
+  rank-1 output unassigned on a path: `List.replicate <extent> undef`
+  integers      `mod(a, b)` ↦ `Int.tmod`, integer `a / b` ↦ `Int.tdiv` (truncation towards zero), `a ** 2..4` the repeated
+                product; unbounded `Int` - the wrap-around of `integer(c_int)` is not modelled; `{"ints": True}` admits
+                integer inputs that are not extents
+  allocatable   a local `real(c_double), allocatable :: w(:, :)` with exactly one top-level `allocate(w(e1, e2))`: an array with
+                those extents (integer expressions), undefined content (`List.replicate n undef`) from the `allocate` on
+  inout         `{"inout": True}`: an `intent(inout)` dummy is an input AND an output of the Lean definition; at a call the
+                actual is read and re-assigned; an output actual may be a section of a loop-carried variable
+  columns       of a rank-2 array whose first extent is not a literal: `m(:, j)` ↦ `col m (j-1)`, `m(lo:hi, j)` ↦
+                `secRow (col m (j-1)) lo hi`, `m(lo:hi, j) = v` ↦ `setColSec m (j-1) lo hi v`; `forall (j = a:b) m(lo:hi, j) = rhs`
+                ↦ a fold of `setColSec` whose right-hand sides read the OLD array; `-v`, `v / c` on rank-1 arrays;
+                `norm2(m)` of a rank-2 array ↦ `norm2 (List.flatten m)` (Frobenius norm; order of the elements immaterial)
+  not read      `use m, only: ...` lists: a name that exists in two modules and is referenced from a THIRD module resolves to
+                the routine listed first (the argument count then differs: EXTRACT-PROBLEM, not a wrong translation)
+
 Deterministic; writes the file only when its content changes; exit status 0 also when routines are not translatable.
 Usage: translate_f90.py [--out PATH] [--print]
 """
@@ -144,9 +168,23 @@ ROUTINES = [
     ("triangle", "evaluate_cartesian_multi", {"reduce": ["dimension_", "num_vals"]}),
     ("triangle", "compute_edge_nodes", {"reduce": ["dimension_"]}),
     ("triangle", "jacobian_both", {"reduce": ["dimension_"]}),
+    # phase 4 (f90tri)
+    ("triangle", "jacobian_det", {"reduce": ["num_vals"]}),
+    ("triangle", "specialize_workspace_sizes", {"ints": True}),
+    ("triangle", "specialize_triangle_one_round", {"reduce": ["dimension_"], "inout": True}),
+    ("triangle", "specialize_triangle", {"reduce": ["dimension_"]}),
+    ("triangle", "subdivide_nodes", {"reduce": ["dimension_"], "as": "tri_subdivide_nodes"}),
+    ("triangle_intersection", "newton_refine_solve", {"unit": True}),
+    ("triangle_intersection", "newton_refine", {"unit": True, "as": "tri_newton_refine"}),
+    ("triangle", "shoelace_for_area"),
+    ("curve", "reduce_pseudo_inverse", {"reduce": ["dimension_"]}),
+    ("curve", "specialize_curve_generic", {"reduce": ["dimension_"], "as": "specialize_curve_generic_full"}),
+    ("curve", "projection_error"),
+    ("curve", "can_reduce"),
 ]
 
 MODULES = ("helpers", "curve_intersection", "curve", "triangle")
+MODULES = MODULES + ("triangle_intersection",)      # phase 4 (f90tri)
 
 # integer enum families: Fortran prefix -> (Lean inductive, {constructor: toNat value}, name of the toNat function)
 ENUMS = {
@@ -164,6 +202,7 @@ LEAN_KEYWORDS = {"end", "at", "from", "do", "then", "else", "if", "fun", "let", 
                  "subRow", "addRow", "q", "vecOfPt", "set2", "anyB", "allB", "colRange", "matAdd", "matSub", "matScale", "matAbs", "ofInt", "ncols", "scaleRow",
                  "st", "r", "getP", "rowsOf", "secRow", "setSec", "mulRow", "acc", "setColRange", "pscale", "ptOf", "pneg", "setColPt", "matVec", "matMul", "transpose"}
 LEAN_KEYWORDS |= {"j%d" % k for k in range(1, 40)}
+LEAN_KEYWORDS |= {"col", "setColSec", "negRow", "divRow"}       # phase 4 (f90tri)
 
 
 class Problem(Exception):
@@ -576,6 +615,7 @@ def parse_decl(line):
     intent = None
     is_param = False
     dim_attr = None
+    is_alloc = False        # phase 4 (f90tri)
     for a in attrs:
         al = a.lower().replace(" ", "")
         mm = re.match(r"intent\((in|out|inout)\)$", al)
@@ -585,6 +625,8 @@ def parse_decl(line):
             is_param = True
         elif al == "":
             pass
+        elif al == "allocatable" and intent is None:
+            is_alloc = True     # phase 4 (f90tri): a local allocatable array; its shape is that of its one `allocate`
         else:
             raise Problem("attribute not supported: %r" % a)
     out = []
@@ -600,6 +642,8 @@ def parse_decl(line):
         if init is not None and not is_param:
             raise Problem("initialised (saved) variable not supported: %r" % ent)
         out.append({"name": mm.group(1), "base": base, "shape": shape, "intent": intent, "param": is_param, "init": init})
+        if is_alloc:
+            out[-1]["alloc"] = True
     return out
 
 
@@ -701,6 +745,9 @@ def parse_statements(lines):
             pos[0] += 1
             return ("do", m.group(1), parse_expr(parts[0]), parse_expr(parts[1]),
                     parse_expr(parts[2]) if len(parts) == 3 else None, body, line)
+        m = re.match(r"allocate\s*\(\s*(\w+)\s*\((.*)\)\s*\)\s*$", line, re.I)
+        if m:       # phase 4 (f90tri): `allocate(w(e1, e2))` of a local allocatable array
+            return ("alloc", m.group(1), split_top(m.group(2)), line)
         if re.match(r"(do\b|while\b|cycle\b|exit\b|goto\b|go\s+to\b|stop\b|allocate\b|deallocate\b|select\b|where\b|"
                     r"forall\b|print\b|write\b|read\b|nullify\b|continue\b|contains\b|use\b|entry\b)", low):
             raise Problem("statement not supported: %r" % line)
@@ -887,6 +934,7 @@ class Translator:
         self.problems = []
         self.param_used = []    # real parameters referenced (emitted as defs)
         self.enum_used = []     # (family, NAME, value, ctor)
+        self.scoped = {}        # phase 4 (f90tri): (module, lower name) -> Routine; a name is looked up in its own module first
 
     # ------------------------------------------------------------------ module parameters
     def load_parameters(self, mod, lines):
@@ -933,6 +981,7 @@ class Translator:
     def translate(self, mod, name, lines, opts=None):
         opts = opts or {}
         r = Routine(mod, name)
+        r.lean_name = opts.get("as", name)      # phase 4 (f90tri): a second routine of the same name (other module)
         hdr, body = find_procedure(lines, name)
         r.kind = hdr.group("kind").lower()
         r.args = [a.strip() for a in hdr.group("args").split(",") if a.strip()]
@@ -949,14 +998,19 @@ class Translator:
             if re.match(r"use\b", low):
                 raise Problem("`use` inside the routine not supported")
             if DECL_RX.match(line) and "::" in line:
-                decls += parse_decl(line)
+                try:
+                    decls += parse_decl(line)
+                except Problem:
+                    # phase 4 (f90tri): an interface-only routine may declare LOCALS outside the subset (allocatable workspaces)
+                    if not opts.get("opaque") or re.search(r"\bintent\s*\(", line, re.I):
+                        raise
                 k += 1
                 continue
             break
         for line in body[k:]:
             if DECL_RX.match(line) and "::" in line:
                 raise Problem("declaration after executable statements: %r" % line)
-        stmts = parse_statements(body[k:])
+        stmts = [] if opts.get("opaque") else parse_statements(body[k:])      # phase 4 (f90tri): interface only
         for d in decls:
             if d["param"]:
                 raise Problem("local parameter not supported: %s" % d["name"])
@@ -964,6 +1018,13 @@ class Translator:
             if low in r.vars:
                 raise Problem("duplicate declaration of %s" % d["name"])
             r.vars[low] = {"name": d["name"], "base": d["base"], "shape_txt": d["shape"], "intent": d["intent"]}
+            if d.get("alloc"):
+                # phase 4 (f90tri): the shape is given by the single top-level `allocate` of the array
+                al = [x for x in stmts if x[0] == "alloc" and x[1].lower() == low]
+                if len(al) != 1 or len(al[0][2]) != len(d["shape"]) or any(e.strip() != ":" for e in d["shape"]):
+                    raise Problem("allocatable %s: exactly one top-level `allocate` with its declared rank is supported" % d["name"])
+                r.vars[low]["shape_txt"] = list(al[0][2])
+                r.vars[low]["alloc"] = True
         if r.kind == "function":
             res = hdr.group("result")
             if not res:
@@ -980,7 +1041,7 @@ class Translator:
         for a in r.args:
             if a.lower() not in r.vars:
                 raise Problem("dummy argument %s not declared" % a)
-            if r.vars[a.lower()]["intent"] not in ("in", "out"):
+            if r.vars[a.lower()]["intent"] not in ("in", "out") and not (r.vars[a.lower()]["intent"] == "inout" and opts.get("inout")):
                 raise Problem("dummy argument %s: intent(%s) not supported (only in / out)" % (a, r.vars[a.lower()]["intent"]))
         for low, v in r.vars.items():
             if v["intent"] and low not in [a.lower() for a in r.args]:
@@ -995,12 +1056,14 @@ class Translator:
                 ext = ext.strip()
                 if re.fullmatch(r"\d+", ext):
                     shape.append(int(ext))
+                elif v.get("alloc"):        # phase 4 (f90tri): the extents of the `allocate` (integer expressions)
+                    shape.append(canon(parse_expr(ext)))
                 elif re.fullmatch(r"\w+", ext):
                     el = ext.lower()
                     if el not in r.vars or r.vars[el]["base"] != "int" or r.vars[el]["intent"] != "in" or r.vars[el]["shape_txt"]:
                         raise Problem("extent %s of %s is not an integer intent(in) dummy" % (ext, v["name"]))
                     shape.append(el)
-                    if v["intent"] == "in":
+                    if v["intent"] == "in" or v["intent"] == "inout":
                         r.extent_dummies.setdefault(el, (low, axis, len(v["shape_txt"])))
                         r.extent_uses.setdefault(el, []).append((low, axis))
                 elif v["intent"] in (None, "out") or opts.get("reduce") or opts.get("unit"):
@@ -1038,8 +1101,8 @@ class Translator:
                 raise Problem("name clash after renaming %s" % v["name"])
             taken.add(nm)
             v["lean"] = nm
-        r.ins = [a.lower() for a in r.args if r.vars[a.lower()]["intent"] == "in" and a.lower() not in r.extent_dummies]
-        r.outs = [a.lower() for a in r.args if r.vars[a.lower()]["intent"] == "out"]
+        r.ins = [a.lower() for a in r.args if r.vars[a.lower()]["intent"] in ("in", "inout") and a.lower() not in r.extent_dummies]
+        r.outs = [a.lower() for a in r.args if r.vars[a.lower()]["intent"] in ("out", "inout")]
         if r.kind == "function":
             if r.outs:
                 raise Problem("function with intent(out) dummies not supported")
@@ -1247,6 +1310,13 @@ class Translator:
                                           "first axis there" % (r.name, canon(a), d, cal.name))
                     lifts.append((dl, canon(a)))
                 continue
+            if dl not in cal.vars and dl + "_lo" in cal.vars and dl + "_hi" in cal.vars:
+                # phase 4 (f90tri): a BLOCK SPLIT dummy (`new_nodes(2 * dimension_, n)` of jacobian_both) receives the
+                # actual once per block
+                ra = self.rw_expr(r, a, fv)
+                out.append(("blk", ra, "_lo"))
+                out.append(("blk", ra, "_hi"))
+                continue
             dv = cal.vars[dl]
             if any(dv.get("mask", [])) and a[0] == "arr":
                 if all(dv["mask"]) and len(a[1]) == 1:
@@ -1296,6 +1366,10 @@ class Translator:
                     out.append(("call", s[1], args, s[3], lifts))
                 else:
                     out.append(("call", s[1], [self.rw_expr(r, a, fv) for a in s[2]], s[3]))
+            elif k == "alloc":      # phase 4 (f90tri)
+                if s[1].lower() not in r.vars or not r.vars[s[1].lower()].get("alloc"):
+                    raise Problem("allocate of %s, which is not a local allocatable array" % s[1])
+                out.append(s)
             else:
                 raise Problem("internal: rw_stmts " + k)
         return out
@@ -1403,6 +1477,13 @@ class Ctx:
                 return V(Ty("int"), "List.length %s" % av, P_APP, lb=1)
             return V(Ty("int"), "ncols %s" % av, P_APP, lb=1)
         if low not in st.defined:
+            if for_return and v["ty"].base == "real" and v["ty"].kindshape() == ("list",):
+                # phase 4 (f90tri): a rank-1 output that is unassigned on this path: every element `undef`
+                return self.list_base(low, st, "output %s unassigned at return" % v["name"])
+            if (v["ty"].base == "real" and v["ty"].kindshape() == ("mat",) and not all(isinstance(e, int) for e in v["ty"].shape)
+                    and v["intent"] is None):
+                # phase 4 (f90tri): a local rank-2 array that is unassigned on this path: every element `undef`
+                return self.mat_base(low, st, "read of unassigned %s" % v["name"])
             return self.undef_of(v["ty"], ("output %s unassigned at return" if for_return else "read of unassigned %s") % v["name"])
         val = V(v["ty"], v["lean"])
         if v["ty"].base == "bool" and not v["ty"].shape:
@@ -1427,7 +1508,24 @@ class Ctx:
             return self.do_stmt(s, st, rest)
         if s[0] == "forall":
             return self.forall_stmt(s, st, rest)
+        if s[0] == "alloc":
+            return self.alloc_stmt(s, st, rest)
         raise Problem("internal: statement " + s[0])
+
+    def alloc_stmt(self, s, st, rest):
+        """phase 4 (f90tri): `allocate(w(..))`: the array exists from here on, every element undefined"""
+        low = s[1].lower()
+        v = self.r.vars.get(low)
+        if v is None or not v.get("alloc"):
+            raise Problem("allocate of %s, which is not a local allocatable array" % s[1])
+        if any(x[0] == "var" for x in st.loops.values()) or low in st.defined:
+            raise Problem("allocate inside a loop / of an allocated array: %r" % s[3])
+        if not (v["ty"].base == "real" and v["ty"].kindshape() == ("list",)):
+            raise Problem("allocate of %s: only arrays that are rank 1 after axis reduction" % s[1])
+        self.uses_undef = True
+        st2 = st.copy()
+        st2.assigned(low)
+        return ("let", v["lean"], "List.replicate %s undef" % self.extent_val(low, 0, st).at(P_APP), rest(st2))
 
     def if_joined(self, branches, else_body, st, rest):
         """inside a fold-translated loop: an `if` construct without `return` is translated as
@@ -1557,7 +1655,10 @@ class Ctx:
                 if len(s[2]) != len(cal.args):
                     raise Problem("wrong number of arguments in %r" % s[3])
                 for d, a in zip(cal.args, s[2]):
-                    if cal.vars[d.lower()]["intent"] == "out":
+                    if cal.vars[d.lower()]["intent"] in ("out", "inout"):
+                        if a[0] == "ref" and a[1].lower() in self.r.vars and (self.r.reduced or self.r.unit):
+                            acc.add(a[1].lower())       # phase 4 (f90tri): an output bound to a section of a variable
+                            continue
                         if a[0] != "name":
                             raise Problem("output argument is not a whole variable in %r" % s[3])
                         acc.add(a[1].lower())
@@ -1893,6 +1994,17 @@ class Ctx:
             st2.assigned(low)
             return ("let", v["lean"], "setColRange %s %s %s %s" % (cur.at(P_APP), lo_v.at(P_APP), hi_v.at(P_APP), val.at(P_APP)),
                     rest(st2))
+        if (lhs[0] == "ref" and ty.base == "real" and ty.kindshape() == ("mat",) and len(lhs[2]) == 2
+                and lhs[2][0][0] == "slice" and lhs[2][1][0] != "slice" and not isinstance(ty.shape[0], int)):
+            # phase 4 (f90tri): `m(lo:hi, j) = v`: (a section of) one column
+            if not (val.ty.base == "real" and val.ty.kindshape() == ("list",)):
+                raise Problem("assignment %r: type %s where a rank-1 array is expected" % (text, val.ty))
+            lo_t, hi_t = self.col_bounds(low, lhs[2][0], st, text)
+            j0, _ = self.index0(lhs[2][1], st, name, ty.shape[1])
+            cur = self.mat_base(low, st, text)
+            st2 = st.copy()
+            st2.assigned(low)
+            return ("let", v["lean"], "setColSec %s %s %s %s %s" % (cur.at(P_APP), j0, lo_t, hi_t, val.at(P_APP)), rest(st2))
         # element assignment
         idx = [self.const_index(a, st, text) for a in lhs[2]]
         if len(idx) != len(ty.shape):
@@ -1916,6 +2028,28 @@ class Ctx:
         st2 = st.copy()
         st2.assigned(low)
         return ("let", v["lean"], new, rest(st2))
+
+    def col_bounds(self, low, sl, st, text):
+        """phase 4 (f90tri): (lo text, hi text) of the section `sl` along the FIRST axis of the rank-2 array `low`"""
+        if len(sl) > 3:
+            raise Problem("strided section of %s not supported in %r" % (self.r.vars[low]["name"], text))
+        if sl[1] is None:
+            lo_v = V(Ty("int"), "1", const=Fr(1), lb=1)
+        else:
+            lo_v = self.int_expr(sl[1], st, text)
+            if lo_v.lb < 1:
+                raise Problem("section of %s: lower bound may be < 1" % self.r.vars[low]["name"])
+        hi_v = self.nat_of(sl[2], st, text) if sl[2] is not None else self.extent_val(low, 0, st)
+        return lo_v.at(P_APP), hi_v.at(P_APP)
+
+    def mat_base(self, low, st, text):
+        """phase 4 (f90tri): current value of the rank-2 array `low`; unassigned: every element `undef`"""
+        v = self.r.vars[low]
+        if low in st.defined or low in st.poison:
+            return self.read_var(low, st)
+        self.uses_undef = True
+        return V(v["ty"], "List.replicate %s (List.replicate %s undef)" % (self.extent_val(low, 0, st).at(P_APP),
+                                                                            self.extent_val(low, 1, st).at(P_APP)), P_APP)
 
     def extent_val(self, low, axis, st):
         """declared extent of axis `axis` of variable `low` as a Nat-valued V (a negative extent is an empty array)"""
@@ -2012,6 +2146,28 @@ class Ctx:
                 return rest(st3)
             _, lhs, rhs, t2 = body[j]
             tl = lhs[1].lower()
+            if (lhs[0] == "ref" and tl in self.r.vars and len(lhs[2]) == 2 and lhs[2][0][0] == "slice"
+                    and lhs[2][1] == ("name", var) and self.r.vars[tl]["ty"].base == "real"
+                    and self.r.vars[tl]["ty"].kindshape() == ("mat",) and not isinstance(self.r.vars[tl]["ty"].shape[0], int)
+                    and self.r.vars[tl]["intent"] != "in"):
+                # phase 4 (f90tri): `forall (j = lo:hi) m(a:b, j) = rhs(j)`: the columns are distinct targets, every
+                # right-hand side reads the OLD array: a fold of column updates whose right-hand sides refer to the old value
+                tv = self.r.vars[tl]
+                st_in = st2.copy()
+                st_in.loops[low] = ("var", int(lo_v.const), hi)
+                val = self.expr(rhs, st_in)
+                if not (val.ty.base == "real" and val.ty.kindshape() == ("list",)):
+                    raise Problem("assignment %r: type %s where a rank-1 array is expected" % (t2, val.ty))
+                lo_t, hi_t = self.col_bounds(tl, lhs[2][0], st2, t2)
+                cur = self.read_var(tl, st2)
+                if tl not in st2.defined:
+                    raise Problem("forall over the columns of unassigned %s" % tv["name"])
+                rng = "(List.range' %d (%s + 1 - %d))" % (int(lo_v.const), hi_v.at(P_ADD), int(lo_v.const))
+                new = "List.foldl (fun (acc : List (List K)) (%s : Nat) => setColSec acc (%s - 1) %s %s %s) %s %s" % (
+                    ivar, ivar, lo_t, hi_t, val.at(P_APP), cur.at(P_APP), rng)
+                st3 = st2.copy()
+                st3.assigned(tl)
+                return ("let", tv["lean"], new, one(j + 1, st3))
             if lhs[0] != "ref" or tl not in self.r.vars or len(lhs[2]) != 1 or lhs[2][0][0] == "slice":
                 raise Problem("forall assignment target not supported: %r" % t2)
             tv = self.r.vars[tl]
@@ -2064,6 +2220,8 @@ class Ctx:
     # ------------------------------------------------------------------ calls
     def callee(self, name):
         low = name.lower()
+        if (self.r.mod, low) in self.tr.scoped:
+            return self.tr.scoped[(self.r.mod, low)]
         if low in self.tr.routines:
             return self.tr.routines[low]
         if low in self.tr.failed:
@@ -2105,6 +2263,11 @@ class Ctx:
                 else:
                     val = self.coerce(val, dv["ty"], "argument %s of %s" % (dv["name"], cal.name))
                     ins[d] = val
+            elif dv["intent"] == "inout":
+                # phase 4 (f90tri): read and written: the current value goes in, the result is assigned to the same actual
+                val = self.coerce(self.expr(a, st), dv["ty"], "argument %s of %s" % (dv["name"], cal.name))
+                ins[d] = val
+                outs.append((d, a))
             else:
                 outs.append((d, a))
         # extents: the actual extent must be the declared extent of the actual array (textually), or a literal
@@ -2206,6 +2369,26 @@ class Ctx:
         lift = lifts[0][0]
         ins, outs = self.bind_actuals(cal, actuals, st, text, lift=lift)
         mapped = list(self.mapped)
+        if (len(outs) == 2 and all(a[0] == "blk" for _, a in outs) and outs[0][1][1] == outs[1][1][1]
+                and [a[2] for _, a in outs] == ["_lo", "_hi"] and [d for d, _ in outs] == list(cal.outs)
+                and all(lift in cal.vars[d].get("orig_exts", []) for d, _ in outs)):
+            # phase 4 (f90tri): the two blocks of a BLOCK SPLIT output, each carrying the mapped axis: the actual array
+            # is the rows of the first block followed by the rows of the second block
+            a = outs[0][1][1]
+            if a[0] != "name" or a[1].lower() not in self.r.vars:
+                raise Problem("block output of a mapped call is not a whole variable in %r" % text)
+            low = a[1].lower()
+            v = self.r.vars[low]
+            if v["intent"] == "in" or low in self.r.extent_dummies or low in st.loops:
+                raise Problem("output argument bound to intent(in) %s in %r" % (v["name"], text))
+            if len(mapped) != 1:
+                raise Problem("block call mapped over an axis with %d array inputs: %r" % (len(mapped), text))
+            app = self.apply(cal, ins)
+            nm = ins[list(cal.ins).index(mapped[0][0])].s
+            txt = "(List.map (fun %s => (%s).1) %s ++ List.map (fun %s => (%s).2) %s)" % (
+                nm, app, mapped[0][1].at(P_APP), nm, app, mapped[0][1].at(P_APP))
+            want = self.lifted_ty(cal.vars[outs[0][0]]["ty"])
+            return self.assign(("assign", a, ("val", V(want, txt, P_ATOM)), text), st, rest)
         if len(outs) != 1 or lift not in cal.vars[outs[0][0]].get("orig_exts", []):
             raise Problem("call mapped over an axis needs exactly one output, carrying that axis: %r" % text)
         d, a = outs[0]
@@ -2263,6 +2446,13 @@ class Ctx:
             return self.is_int_ast(e[2], st)
         if k == "bin" and e[1] in ("+", "-", "*"):
             return self.is_int_ast(e[2], st) and self.is_int_ast(e[3], st)
+        # phase 4 (f90tri): integer division (truncating), `mod`, `** <literal 2..4>` of integer expressions
+        if k == "bin" and e[1] == "/":
+            return self.is_int_ast(e[2], st) and self.is_int_ast(e[3], st)
+        if k == "bin" and e[1] == "**":
+            return (self.is_int_ast(e[2], st) and e[3][0] == "num" and not e[3][2] and 2 <= e[3][1] <= 4)
+        if k == "ref" and e[1].lower() == "mod" and e[1].lower() not in self.r.vars and len(e[2]) == 2:
+            return self.is_int_ast(e[2][0], st) and self.is_int_ast(e[2][1], st)
         return False
 
     def is_int_var(self, low):
@@ -2290,6 +2480,18 @@ class Ctx:
         if k == "un":
             t, p = self.int_value(e[2], st)
             return "-" + (t if p > P_NEG else "(" + t + ")"), P_NEG
+        if k == "ref":          # phase 4 (f90tri): mod(a, b): the remainder has the sign of `a` (Int.tmod)
+            a, pa = self.int_value(e[2][0], st)
+            b, pb = self.int_value(e[2][1], st)
+            return "Int.tmod %s %s" % (a if pa > P_APP else "(" + a + ")", b if pb > P_APP else "(" + b + ")"), P_APP
+        if k == "bin" and e[1] == "/":      # phase 4 (f90tri): integer division truncates towards zero (Int.tdiv)
+            a, pa = self.int_value(e[2], st)
+            b, pb = self.int_value(e[3], st)
+            return "Int.tdiv %s %s" % (a if pa > P_APP else "(" + a + ")", b if pb > P_APP else "(" + b + ")"), P_APP
+        if k == "bin" and e[1] == "**":     # phase 4 (f90tri): the repeated product, associated to the left
+            a, pa = self.int_value(e[2], st)
+            t = a if pa > P_MUL else "(" + a + ")"
+            return " * ".join([a if pa > P_MUL - 1 else "(" + a + ")"] + [t] * (int(e[3][1]) - 1)), P_MUL
         a, pa = self.int_value(e[2], st)
         b, pb = self.int_value(e[3], st)
         lvl = P_MUL if e[1] == "*" else P_ADD
@@ -2343,7 +2545,14 @@ class Ctx:
                 return self.param(low)
             raise Problem("unknown name %s" % e[1])
         if k == "arr":
-            raise Problem("array constructor not supported")
+            # phase 4 (f90tri): `[x1, .., xn]` of real scalars: a rank-1 array (n = 2: a `v(2)` point)
+            items = [self.expr(x, st) for x in e[1]]
+            items = [self.int_to_real(x) if (x.ty == Ty("int") and x.z is not None) else x for x in items]
+            if not items or any(x.ty != REAL for x in items):
+                raise Problem("array constructor of other than real scalars not supported")
+            if len(items) == 2:
+                return V(Ty("real", (2,)), "(%s, %s)" % (items[0].s, items[1].s), P_ATOM)
+            return V(Ty("real", (len(items),)), "[" + ", ".join(x.s for x in items) + "]", P_ATOM)
         if k == "un":
             x = self.expr(e[2], st)
             if e[1] == "not":
@@ -2351,6 +2560,8 @@ class Ctx:
                 return mk_bool(("not", x.logic))
             if x.ty.base == "real" and x.ty.kindshape() == ("pt",):
                 return V(x.ty, "pneg %s" % x.at(P_APP), P_APP)
+            if x.ty.base == "real" and x.ty.kindshape() == ("list",):        # phase 4 (f90tri): `-v` on a rank-1 array
+                return V(x.ty, "negRow %s" % x.at(P_APP), P_APP)
             if x.ty != REAL:
                 raise Problem("unary minus on %s" % x.ty)
             return V(REAL, "-" + x.at(P_NEG), P_NEG)
@@ -2445,6 +2656,8 @@ class Ctx:
                 return V(a.ty, "pscale %s %s" % (a.at(P_APP), b.at(P_APP)), P_APP)
             if op == "*" and a.ty == REAL and islist(b):
                 return V(b.ty, "scaleRow %s %s" % (a.at(P_APP), b.at(P_APP)), P_APP)
+            if op == "/" and islist(a) and b.ty == REAL:       # phase 4 (f90tri): `v / c` on a rank-1 array
+                return V(a.ty, "divRow %s %s" % (a.at(P_APP), b.at(P_APP)), P_APP)
             if op == "*" and islist(a) and islist(b):
                 return V(a.ty, "mulRow %s %s" % (a.at(P_APP), b.at(P_APP)), P_APP)
             if op == "*" and a.ty == REAL and b.ty.base == "real" and b.ty.kindshape() == ("mat",):
@@ -2524,6 +2737,13 @@ class Ctx:
                     else:
                         hi_v = self.extent_val(low, 1, st)
                 return V(Ty("real", (ty.shape[0], "(section)")), "colRange %s %s %s" % (base.s, lo_v.at(P_APP), hi_v.at(P_APP)), P_APP)
+            if ks == ("mat",) and slices[0] and not slices[1] and not isinstance(ty.shape[0], int):
+                # phase 4 (f90tri): `m(lo:hi, j)`: (a section of) one column of an array with a non-literal first extent
+                j, _ = self.index0(args[1], st, v["name"], ty.shape[1])
+                if args[0] == ("slice", None, None):
+                    return V(Ty("real", (ty.shape[0],)), "col %s %s" % (base.s, j), P_APP)
+                lo_t, hi_t = self.col_bounds(low, args[0], st, v["name"])
+                return V(Ty("real", ("(section)",)), "secRow (col %s %s) %s %s" % (base.s, j, lo_t, hi_t), P_APP)
             for a in args:
                 if a[0] == "slice" and a != ("slice", None, None):
                     raise Problem("section with bounds of %s not supported" % v["name"])
@@ -2604,6 +2824,11 @@ class Ctx:
             if len(vals) == 1 and vals[0].ty.base == "real" and vals[0].ty.kindshape() in (("pt",), ("list",)):
                 self.uses_norm2 = True
                 return V(REAL, "norm2 %s" % self.as_list(vals[0]).at(P_APP), P_APP)
+            if len(vals) == 1 and vals[0].ty.base == "real" and vals[0].ty.kindshape() == ("mat",):
+                # phase 4 (f90tri): `norm2(m)` of a rank-2 array (no `dim`): the Frobenius norm = the 2-norm of the list of all
+                # its elements (listed row by row; the external `norm2` is taken not to depend on the order)
+                self.uses_norm2 = True
+                return V(REAL, "norm2 (List.flatten %s)" % vals[0].at(P_APP), P_APP)
             raise Problem("norm2 of this argument not supported")
         if low in ("any", "all"):
             if len(vals) == 1 and vals[0].ty.base == "bool" and vals[0].ty.shape:
@@ -2724,6 +2949,13 @@ def anyB (l : List Bool) : Bool := l.any id
 
 /-- `all(mask)` -/
 def allB (l : List Bool) : Bool := l.all id
+
+/-- phase 4 (f90tri): `-v` on a rank-1 array -/
+def negRow (v : List K) : List K := v.map (fun x => -x)
+
+/-- phase 4 (f90tri): `m(lo:hi, j+1) = w` (1-based inclusive rows `lo .. hi`, conformable `w`) -/
+def setColSec (m : List (List K)) (j lo hi : Nat) (w : List K) : List (List K) :=
+  m.take (lo - 1) ++ List.zipWith (fun r x => r.set j x) ((m.drop (lo - 1)).take (hi + 1 - lo)) w ++ m.drop hi
 """
 
 
@@ -2819,7 +3051,8 @@ def main(argv):
             continue
         try:
             r = tr.translate(mod, name, lines[mod], opts)
-            tr.routines[name.lower()] = r
+            tr.routines[opts.get("as", name).lower()] = r
+            tr.scoped[(mod, name.lower())] = r
             done.append(r)
         except Problem as exc:
             tr.failed[name.lower()] = str(exc)
